@@ -385,6 +385,8 @@ def vkey(clause, cfg, cls=None):
 
 
 def close(a, b, rel, ab):
+    if not (math.isfinite(a) and math.isfinite(b)):
+        return a == b
     return abs(a - b) <= ab + rel * max(abs(a), abs(b))
 
 
@@ -903,9 +905,20 @@ def _part_h(task, rec):
         bad = run_history(cfg, lab, hist, alph, rec, one, name)
         rec.count('histories')
         if bad:
-            i = bad[0]
-            key, what = history_violation(cfg, lab, hist, bad, alph)
-            rec.violation(key, what, dict(part='h', cfg=cfg, lab=lab, history=[list(o) for o in hist[:i + 1]], seed=_SEED),
+            h = hist[:bad[0] + 1]
+            key, what = history_violation(cfg, lab, h, bad, alph)
+            # minimal witness: drop earlier operations as long as the same finding is produced
+            shrunk = True
+            while shrunk and len(h) > 1:
+                shrunk = False
+                for j in range(len(h) - 1):
+                    h2 = h[:j] + h[j + 1:]
+                    b2 = run_history(cfg, lab, h2, alph)
+                    if b2 and b2[0] == len(h2) - 1 and history_violation(cfg, lab, h2, b2, alph)[0] == key:
+                        h, bad, shrunk = h2, b2, True
+                        key, what = history_violation(cfg, lab, h, bad, alph)
+                        break
+            rec.violation(key, what, dict(part='h', cfg=cfg, lab=lab, history=[list(o) for o in h], seed=_SEED),
                           expected=bad[3], observed=bad[4])
 
 
@@ -955,9 +968,11 @@ def tasks(tier, seed):
         for pset in ('D', 'B'):
             for ri in (0, 1):
                 for budget in (1.0, 10.0):
+                    # translated: every other extra labeling (its bisection is 5-10 times slower, see above)
+                    extra = extra_labs[::2] if cfg['variant'] == 'translated' else extra_labs
                     for e0 in firsts:
-                        for c0 in range(0, len(extra_labs), chunk):
-                            t.append(dict(part='f', cfg=cfg, pset=pset, row=ri, labs=[labs[0]] + extra_labs[c0:c0 + chunk],
+                        for c0 in range(0, len(extra), chunk):
+                            t.append(dict(part='f', cfg=cfg, pset=pset, row=ri, labs=[labs[0]] + extra[c0:c0 + chunk],
                                           budgets=[budget], draws=[[e0] + tl for tl in tails], seed=seed, bf_labs=[]))
     for cfg in cfgs:
         for ps, b, li in api:
